@@ -80,6 +80,8 @@ class CFG:
         self.exit = self._new('exit')
         self.raise_exit = self._new('raise')
         self._final_memo: Dict[Tuple, int] = {}
+        self._ret_value: Dict[int, ast.AST] = {}
+        self._known: Dict[int, Dict[str, object]] = {}
         self.in_handler: Set[int] = set()  # nodes that belong to the body of an except clause
         body = func_node.body if isinstance(func_node.body, list) else [ast.Return(value=func_node.body)]
         k = _K(self.raise_exit.id, [])
@@ -180,6 +182,9 @@ class CFG:
             if k.ret is None:
                 self._connect(outs, self.exit.id)
             else:
+                if outs == after:
+                    for pid, _lab in outs:
+                        self._ret_value[pid] = st.value  # value returned through this edge of an inlined helper
                 k.ret.extend(outs)
             return []
         if isinstance(st, ast.Raise):
@@ -220,7 +225,26 @@ class CFG:
         body = target.body if isinstance(target.body, list) else [ast.Return(value=target.body)]
         fall = self._seq(body, outs, kk)
         self._inline_stack.pop()
+        self._note_constants(st, rets)
         return fall + rets
+
+    def _note_constants(self, st, rets):
+        """`a, b = helper()` where a return edge of the inlined helper carries a literal tuple: remember the constant
+        (True / False / None) each name holds on that edge, so that a test on the name that follows immediately is
+        resolved per return site instead of merging infeasible combinations."""
+        if not isinstance(st, ast.Assign) or len(st.targets) != 1:
+            return
+        tgt = st.targets[0]
+        for pid, _lab in rets:
+            v = self._ret_value.get(pid)
+            if v is None:
+                continue
+            if isinstance(tgt, ast.Name) and isinstance(v, ast.Constant) and (v.value is None or isinstance(v.value, bool)):
+                self._known.setdefault(pid, {})[tgt.id] = v.value
+            elif isinstance(tgt, (ast.Tuple, ast.List)) and isinstance(v, ast.Tuple) and len(tgt.elts) == len(v.elts):
+                for te, ve in zip(tgt.elts, v.elts):
+                    if isinstance(te, ast.Name) and isinstance(ve, ast.Constant) and (ve.value is None or isinstance(ve.value, bool)):
+                        self._known.setdefault(pid, {})[te.id] = ve.value
 
     # ---- conditions, conjunct-split with polarity pushing
     def _bool_defs(self, fdef):
@@ -252,6 +276,17 @@ class CFG:
 
     def _cond(self, expr, preds, k: _K, _expanding=()):
         """Returns (true_outs, false_outs)."""
+        if isinstance(expr, ast.Name) and self._known:
+            t_direct, f_direct, rest = [], [], []
+            for pid, lab in preds:
+                kn = self._known.get(pid, {})
+                if expr.id in kn and lab == 'return':
+                    (t_direct if kn[expr.id] else f_direct).append((pid, lab))
+                else:
+                    rest.append((pid, lab))
+            if t_direct or f_direct:
+                t, f = self._cond(expr, rest, k, _expanding) if rest else ([], [])
+                return t + t_direct, f + f_direct
         if isinstance(expr, ast.Name) and expr.id not in _expanding:
             d = self._bool_defs(self._inline_stack[-1]).get(expr.id)
             if d is not None:
